@@ -1,5 +1,5 @@
 """data behind MANIFEST.json (one entry per claimed property)"""
-REPO_FIX_COMMITS = []
+REPO_FIX_COMMITS = ['6da798c', '302e796', 'c3a0a2b', '68ac071', 'a0135fb', 'ba05074', '8333b7b', 'fa964bf', 'c05a025', 'fd201bd', '7663959', '42d3acf', 'ba81f7d', 'b029d06', '46f4a4e', '47edf11', '3e29bbb', '1f79d06']
 
 _T = 'Trusts rustc MIR construction (opt-level 0), the summaries of the core/alloc functions the crate calls (analysis/stdsum.py), the in-domain decision procedure of analysis/lin.py (Fourier-Motzkin + integer bound propagation), lengths <= isize::MAX, and user trait implementations obeying their documented contract.'
 
